@@ -76,6 +76,13 @@ theorem perm_then_sort_strings {α} (key : α → Bytes) (es₁ es₂ : List α)
     sortedBy (fun a b => bytesLe (key a) (key b)) es₁ = sortedBy (fun a b => bytesLe (key a) (key b)) es₂ :=
   sortedBy_key_perm_eq key bytesLe bytesLe_total bytesLe_trans bytesLe_antisymm hp hn
 
+/-! ## class `filter`: the loop deletes the entries that fail a per-entry test -/
+
+/-- The same entries survive whatever the order of the visit (a Go map is determined by its entries). -/
+theorem perm_filter {α} (keep : α → Bool) (es₁ es₂ : List α) (hp : es₁.Perm es₂) :
+    (keepOnly keep es₁).Perm (keepOnly keep es₂) ∧ ∀ e, e ∈ keepOnly keep es₁ ↔ e ∈ keepOnly keep es₂ :=
+  ⟨hp.filter keep, fun _ => (hp.filter keep).mem_iff⟩
+
 /-! ## class `firstError`: the loop returns the first failing entry's error -/
 
 /-- Whether the loop fails does not depend on the order (which error text it reports does). -/
@@ -128,20 +135,26 @@ theorem insertion_replace_needs_key_alphabet :
 plugins) and fastgo's `(*codewriter).Imports` wrote each entry in iteration order until they were
 repaired (C07 defects 1–3, docs/C07.md); they now collect the entries, sort them, then write. -/
 
-/-- descriptor bytes: a map field is written identically for every iteration order. -/
-theorem descriptor_bytes_perm (fid : Nat) (es₁ es₂ : List (Bytes × Bytes)) (hp : es₁.Perm es₂)
-    (hn : (es₁.map Prod.fst).Nodup) : encMapFieldSorted fid es₁ = encMapFieldSorted fid es₂ := by
+/-- descriptor bytes: a map field is written identically for every iteration order — entries are
+sorted by encoded key, then encoded value, so not even distinct keys are needed. -/
+theorem descriptor_bytes_perm (fid : Nat) (es₁ es₂ : List (Bytes × Bytes)) (hp : es₁.Perm es₂) :
+    encMapFieldSorted fid es₁ = encMapFieldSorted fid es₂ := by
   unfold encMapFieldSorted
-  rw [sortedBy_byEncodedKey_perm hp hn]
+  rw [sortedBy_byEncodedKey_perm hp]
 
 /-- … and so is the whole marshalled FileDescriptor, whatever orders its two maps are visited in. -/
 theorem file_descriptor_perm (path : Bytes) (inc₁ inc₂ ns₁ ns₂ : List (Bytes × Bytes))
-    (hi : inc₁.Perm inc₂) (hs : ns₁.Perm ns₂) (hni : (inc₁.map Prod.fst).Nodup) (hns : (ns₁.map Prod.fst).Nodup) :
+    (hi : inc₁.Perm inc₂) (hs : ns₁.Perm ns₂) :
     encFileDescriptorSorted path inc₁ ns₁ = encFileDescriptorSorted path inc₂ ns₂ := by
   unfold encFileDescriptorSorted
-  rw [sortedBy_byEncodedKey_perm hi hni, sortedBy_byEncodedKey_perm hs hns]
+  rw [sortedBy_byEncodedKey_perm hi, sortedBy_byEncodedKey_perm hs]
 
-example : (([([103, 111], [97]), ([106, 97, 118, 97], [98])] : List (Bytes × Bytes)).map Prod.fst).Nodup := by decide
+/-- … and a map constant / map default of the descriptor (`ConstValueDescriptor.ValueMap`, keyed by
+pointer: entries may have keys of equal content), for every iteration order and any entries. -/
+theorem const_map_bytes_perm (es₁ es₂ : List (Bytes × Bytes)) (hp : es₁.Perm es₂) :
+    encCVMap es₁ = encCVMap es₂ := by
+  unfold encCVMap
+  rw [sortedBy_byEncodedCV_perm hp, hp.length_eq]
 
 /-- request sent to plugins: `Name2Category` is written identically for every iteration order. -/
 theorem plugin_request_perm (es₁ es₂ : List (Bytes × Nat)) (hp : es₁.Perm es₂)
@@ -168,6 +181,12 @@ theorem descriptor_bytes_needs_sort :
     (List.Perm.swap _ _ _)
   revert this
   decide
+
+/-- sorting by the encoded key alone is not enough: two entries with keys of equal content (`k`) and
+the values `a`, `b` come out in the order they went in. -/
+theorem descriptor_bytes_key_only_sort_insufficient :
+    encMapField 7 (sortedBy byEncodedKeyOnly [([107], [97]), ([107], [98])]) ≠
+    encMapField 7 (sortedBy byEncodedKeyOnly [([107], [98]), ([107], [97])]) := by decide
 
 /-- in general: exchanging two different adjacent entries always changes the unsorted bytes of the field … -/
 theorem descriptor_bytes_unsorted_order_sensitive (fid : Nat) (a b : Bytes × Bytes) (r : List (Bytes × Bytes))
@@ -208,6 +227,7 @@ inductive Cls
   | intoMap        -- perm_into_map
   | nsAdd          -- ns_add_comm + std_imports_distinct
   | sortThen       -- perm_then_sort
+  | filter         -- perm_filter
   | firstError     -- perm_any: reached only while validating; only success/failure is observable
   | sum            -- perm_sum
   | replacer       -- replacer_perm + insertion_keys_prefix_free (insertion_replace_perm)
@@ -248,6 +268,8 @@ def classified : List Classified := [
   ⟨"generator/fastgo", "(*codewriter).Imports", 0, "range", "string", .sortThen,
     "paths collected per group, then sort.Strings on each group (fastgo_imports_perm); was C07 defect 2 (no_fmt) before the sort"⟩,
   ⟨"generator/golang", "(*CodeUtils).BuildFuncMap", 0, "range", "string", .sortThen, "ServiceThrows: collected then sort.Slice by Go type name = the map key"⟩,
+  ⟨"generator/golang", "(*GoBackend).renderByTemplate", 0, "range", "string", .filter,
+    "deletes the imports whose package name the rendered file never mentions; the test reads the entry and the fixed file content only; the Imports template then ranges the map in sorted key order"⟩,
   ⟨"generator/golang", "(*importManager).init", 0, "range", "string", .nsAdd, "ns.Add(pkg, path); libNotUsed[pkg] = true"⟩,
   ⟨"generator/golang/extension/meta", "(*instance).Read", 0, "range", "int16", .firstError,
     "names the first missing required field; runs at start-up (RegisterStruct) on constant descriptors that have none missing"⟩,
